@@ -419,7 +419,7 @@ impl Pool {
          *
          * o The client's current address as recorded in the client's current
          *   binding, ELSE */
-        if let Some((ip, _expiry, start)) = self.first_in_pool(
+        if let Some((ip, old_expiry, start)) = self.first_in_pool(
             "SELECT
                address,
                expiry,
@@ -445,7 +445,14 @@ impl Pool {
             // the lease, because you can accidentally end up with a ridiculously
             // long lease if you renew rapidly.
             // So instead we just use 3*renew.
-            let expiry = (ts as u32).saturating_sub(start).saturating_mul(3);
+            // But never less than what is left of the lease the client was already
+            // told: if this reply gets lost (or is a duplicate the client discards) the
+            // client keeps relying on the old expiry, and the address must not become
+            // free for somebody else before that.
+            let expiry = std::cmp::max(
+                (ts as u32).saturating_sub(start).saturating_mul(3),
+                old_expiry.saturating_sub(ts as u32),
+            );
             return Ok(Lease {
                 ip,
                 expire: std::time::Duration::from_secs(expiry.into()),
